@@ -511,7 +511,56 @@ STATS = {"raised": 0, "histories": 0}
 
 
 def eval_history(ctx, cfg, ops, tag):
+    """One console, one history."""
+    for _ in history_steps(ctx, cfg, ops, tag):
+        pass
+
+
+def eval_multi(ctx, cfgs, ops_lists, schedule, tag):
+    """Several consoles alive in one process, their histories interleaved (`schedule`: which console makes its next
+    operation).  Every console is judged exactly as if it were alone: its exports against ITS OWN file, its captures
+    against its own twin, its own model instance (the model is per console: `consoles_do_not_interfere`)."""
+    desc = {"configs": cfgs, "ops": ops_lists, "schedule": schedule}
+    runs = [history_steps(ctx, cfg, ops, tag, desc=desc, site_suffix=" (several consoles)") for cfg, ops in zip(cfgs, ops_lists)]
+    live = [True] * len(runs)
+    for k in schedule:
+        if live[k]:
+            try:
+                next(runs[k])
+            except StopIteration:
+                live[k] = False
+    for k, r in enumerate(runs):  # whatever is left, and the comparison with the model
+        if live[k]:
+            for _ in r:
+                pass
+    ctx.note(f"consoles:{len(runs)}")
+
+
+def multi_schedule(rng, cfgs, ops_lists):
+    """A random interleaving: one entry per operation of every console (probes and closing exports included)."""
+    sched = []
+    for k, (cfg, ops) in enumerate(zip(cfgs, ops_lists)):
+        n = len(with_probes(ops, cfg["record"])) + (len(CLOSING) if cfg["record"] else 0)
+        sched += [k] * n
+    rng.shuffle(sched)
+    return sched
+
+
+def history_steps(ctx, cfg, ops, tag, desc=None, site_suffix=""):
+    """Generator: runs one console's history, yielding after every operation (so that several can be interleaved);
+    when exhausted, the comparison with the model has been queued."""
     STATS["histories"] += 1
+    _check = ctx.check
+    outer = ctx
+
+    class _Ctx:  # the sites of a several-consoles run are reported separately: their failing input is self-contained
+        def __getattr__(self, name):
+            return getattr(outer, name)
+
+        def check(self, ok, site, inp, what, finding=None):
+            return _check(ok, site + site_suffix, inp, what, finding=finding)
+
+    ctx = _Ctx()
     from rich.color import ColorSystem
     from rich.console import COLOR_SYSTEMS
     from rich.terminal_theme import TerminalTheme
@@ -526,7 +575,8 @@ def eval_history(ctx, cfg, ops, tag):
     enc_ops = []  # model operations (a Live operation expands to the primitive console calls rich made)
     model_outs = []  # one answer per model operation
     outs = []  # one answer per harness operation
-    desc = {"config": cfg, "ops": ops}
+    if desc is None:
+        desc = {"config": cfg, "ops": ops}
     live_on = False
     time_shown = False
 
@@ -611,6 +661,7 @@ def eval_history(ctx, cfg, ops, tag):
         elif k not in EXPORTS and caps:
             caps[-1]["idx"].append(i)
         if err:
+            yield
             continue
         if kk == "text" and not op[2]:
             want = visible("".join(t for kind, t in since if kind == "w"))
@@ -714,6 +765,7 @@ def eval_history(ctx, cfg, ops, tag):
             else:
                 ctx.check(before == after, "clear", desc, f"a non-clearing export at op {i - 1} changed what is exported")
             ctx.note("clear:" + str(bool(mid[1])))
+        yield
 
     # ---- correspondence with the model
     cs = None if cfg["color_system"] is None else COLOR_SYSTEMS[cfg["color_system"]]
@@ -786,7 +838,9 @@ def small_histories(maxlen):
 
 
 WORDS = ["a", "b<c", "d&e", "f>g", "&amp;", "&lt;x&gt;", "<b>", "</span>", "あい", "x y", "1 + 2", "'q'", '"z"', "&", "<", ">", "&#38;", "long word here", "é", "]]>", "{code}", "{", "}}", "\t", "http://u.v/w"]
-STYLES = ["@emptylink", "bold", "italic", "red", "bold red on blue", "not bold", "none", "dim", "reverse", "#ff0000", "color(5)", "underline on white", "strike", "overline green", "blink", "default on default"]
+COLOUR_STYLES = ["on #ff8000", "on color(214)", "bold on #102030", "#ff0000", "color(99)", "#00ff00 on #0000ff", "red on color(17)",
+                 "italic", "underline on white", "on blue", "dim #808080", "link http://e.x/ on #123456", "reverse on #fedcba"]
+STYLES = ["@emptylink", "on #ff8000", "bold on color(214)", "bold", "italic", "red", "bold red on blue", "not bold", "none", "dim", "reverse", "#ff0000", "color(5)", "underline on white", "strike", "overline green", "blink", "default on default"]
 LINKS = ["http://e.x/", "http://e.x/?a=1&b=2", "https://e.x/p#f", "mailto:a@b.c", "x"]
 BAD_LINKS = ['http://e.x/"q', "http://e.x/<b>", "a>b", "http://e.x/?a=1&lt;=2", "it's"]
 
@@ -1042,6 +1096,47 @@ def gen_live_history(rng, n):
     return ops
 
 
+def gen_multi(rng):
+    """Two or three recording consoles with DIFFERENT colour systems, alive together, printing the same style
+    definitions (background only, foreground only, both, attributes only: `Style.parse` hands every console the same
+    cached Style object), with captures and clearing / non-clearing exports of every kind."""
+    k = rng.choice([2, 2, 3])
+    systems = rng.sample(["standard", "256", "truecolor", "windows", None], k)
+    cfgs = []
+    for cs in systems:
+        cfgs.append(cfg_with(color_system=cs, force_terminal=rng.choice([True, True, False]), width=rng.choice([12, 20, 40]),
+                             no_color=rng.choice([None, None, None, True]), theme=rng.random() < 0.2, cm=rng.random() < 0.5))
+    shared = [rng.choice(COLOUR_STYLES) for _ in range(rng.choice([1, 2, 3]))]
+    ops_lists = []
+    for _ in range(k):
+        ops = []
+        depth = 0
+        for _ in range(rng.randint(1, 5)):
+            r = rng.random()
+            st = rng.choice(shared)
+            if r < 0.4:
+                ops.append(("print", [("t", rng.choice(["ab", "x<y", "p q", "あ&"]), st, [])], {}))
+            elif r < 0.5:
+                ops.append(("print", [("s", f"[{st}]m&m[/] n")], {}))
+            elif r < 0.56:
+                ops.append(("rule", ("s", rng.choice(["", "T"])), {"style": st}))
+            elif r < 0.6:
+                ops.append(("log", [("s", "l")], {"style": st}))
+            elif r < 0.7:
+                ops.append(("begin",))
+                depth += 1
+            elif r < 0.8 and depth:
+                ops.append(("end",))
+                depth -= 1
+            elif r < 0.9:
+                ops.append((rng.choice(["text", "text", "save_text"]), rng.random() < 0.4, rng.random() < 0.6))
+            else:
+                ops.append((rng.choice(["html", "save_html"]), rng.random() < 0.4, rng.random() < 0.5, rng.choice([None, CUSTOM_FMT])))
+        ops += [("end",)] * depth
+        ops_lists.append(ops)
+    return cfgs, ops_lists
+
+
 def gen_history(rng, n, bad_links, balanced=True):
     ops = []
     depth = 0
@@ -1180,6 +1275,16 @@ def run(ctx):
         eval_history(ctx, cfg, gen_live_history(rng, rng.randint(1, 9)), "live")
     ctx.flush()
 
+    # ---- 4e. several consoles alive together (different colour systems, same style definitions), histories interleaved
+    fixed = [cfg_with(color_system="256"), cfg_with(color_system="truecolor")]
+    fixed_ops = [[("print", [("t", "a", "on #ff8000", [])], {})], [("print", [("t", "b", "on #ff8000", [])], {}), ("text", False, True)]]
+    eval_multi(ctx, fixed, fixed_ops, [0] * (1 + len(CLOSING)) + [1] * (4 + len(CLOSING)), "multi")  # one console after the other
+    eval_multi(ctx, fixed, fixed_ops, [0, 1, 1, 1, 1] + [0] * len(CLOSING) + [1] * len(CLOSING), "multi")  # the first still holds its output
+    for _ in range(250 if ctx.quick else 8000):
+        cfgs, ops_lists = gen_multi(rng)
+        eval_multi(ctx, cfgs, ops_lists, multi_schedule(rng, cfgs, ops_lists), "multi")
+    ctx.flush()
+
     # ---- 4d. `with console:` blocks (enter / exit), also mixed with capture blocks and unbalanced
     n_ctx = 150 if ctx.quick else 4000
     for _ in range(n_ctx):
@@ -1230,6 +1335,12 @@ def replay(ctx, case):
     inp = case.get("input")
     print("site:", case.get("site"))
     print("what:", case.get("what"))
+    if isinstance(inp, dict) and "configs" in inp:
+        before = len(ctx.failures)
+        eval_multi(ctx, [dict(c) for c in inp["configs"]], [[_detuple(o) for o in ops] for ops in inp["ops"]], list(inp["schedule"]), "replay")
+        for f in ctx.failures:
+            print("FAIL:", f["site"], f["what"][:300])
+        return len(ctx.failures) == before
     if isinstance(inp, dict) and "config" in inp:
         ops = [tuple(o) for o in inp["ops"]]
         # the recorded operations already contain the probes and closing exports
@@ -1284,7 +1395,8 @@ MANIFEST = {
     "document with tags removed is template text + escaped exported text + template text; default template obligations proved "
     "on the table translated from rich/console.py each run); export_html_stylesheet (one rule per distinct CSS rule in first-use "
     "order numbered r1..rn, numbering injective, every class looked up in the final table, stylesheet lines); clear_semantics; "
-    "reachable_outside_empty; export_styled_vs_file_without_colour (what the styled export means on NO_COLOR / colour-less "
+    "reachable_outside_empty; consoles_do_not_interfere (any interleaving of operations on any number of consoles: each "
+    "console's state and answers are those of its own history run alone); export_styled_vs_file_without_colour (what the styled export means on NO_COLOR / colour-less "
     "consoles: the file shows the colourless / unstyled version of the same stream); export_html_document_default_decoded "
     "(whole default document, tags removed AND entities decoded = template text + exported text + template text; the template "
     "is checked to contain no '&' on the translated table); print_plain_segments + export_text_of_prints (for print of plain "
